@@ -226,6 +226,16 @@ def run(op, a):
     if op == "conv.TE":
         r1, r2 = v[0].to_expression(), E.from_table(v[0])
         return obs(r1) if str(r1) == str(r2) else "to_/from_ differ"
+    if op == "limit":
+        n = int(v[0])
+        e = E.mk_and_n_ary([E.mk_literal("v%d" % i) for i in range(n)])
+        kinds = []
+        for conv in (lambda: e.to_bdd(), lambda: B.from_expression(e)):
+            try:
+                kinds.append("ok%d" % len(conv().inputs()))
+            except Exception as ex:
+                kinds.append("EXC:" + type(ex).__name__)
+        return kinds[0] if kinds[0] == kinds[1] else "to_/from_ differ: %s" % kinds
     if op == "conv.EB":
         r1, r2 = v[0].to_bdd(), B.from_expression(v[0])
         return obs(r1) if str(r1) == str(r2) else "to_/from_ differ"
